@@ -220,7 +220,7 @@ def op_brief(op: dict[str, Any]) -> dict[str, Any]:
 def predict(model: Model, op: dict[str, Any]) -> dict[str, Any]:
     if op["k"] == "connect":
         return model.connect(op["s"], op.get("database"), op.get("schema"))
-    if op["k"] == "exec":
+    if op["k"] in ("exec", "write_pandas"):
         if op["s"] not in model.sessions:
             return {"ok": False, "errs": [], "why": "no session"}
         return model.apply(op["s"], op["st"])
